@@ -35,7 +35,8 @@ type Case struct {
 	T       int    `json:"threads"`
 	K       int    `json:"per_thread"`
 	Sync    bool   `json:"sync_writer,omitempty"`
-	Dest    string `json:"dest,omitempty"` // "" plain writer | console (ConsoleWriter, pooled render buffer) | multi (MultiLevelWriter over two writers)
+	PanicAt int    `json:"writer_panics_at,omitempty"` // the destination's n-th Write panics (the logging thread recovers, as an HTTP server would): that event is lost, nothing else is, and nobody hangs
+	Dest    string `json:"dest,omitempty"`             // "" plain writer | console (ConsoleWriter, pooled render buffer) | multi (MultiLevelWriter over two writers)
 	N       uint32 `json:"sampler_n,omitempty"`
 	Kind    string `json:"schedule_kind"`
 	Bytes   []byte `json:"bytes,omitempty"`
@@ -123,6 +124,8 @@ var shapes = []func(ls []*zerolog.Logger, t, i int){
 }
 
 type recWriter struct {
+	panicAt int
+	calls   int
 	got     []string
 	inside  int
 	overlap bool
@@ -131,6 +134,10 @@ type recWriter struct {
 }
 
 func (w *recWriter) Write(p []byte) (int, error) {
+	w.calls++
+	if w.calls == w.panicAt {
+		panic("destination blew up")
+	}
 	w.inside++
 	if w.inside > 1 {
 		w.overlap = true
@@ -196,7 +203,7 @@ func runLog(c *Case, ch vsched.Chooser) (string, *vsched.Sched) {
 			shapes[shapeOf(t, i)](sl, t, i)
 		}
 	}
-	ws := []*recWriter{{yields: true}, {yields: true}}
+	ws := []*recWriter{{yields: true, panicAt: c.PanicAt}, {yields: true}}
 	s := vsched.Run(ch, 40000, false, func() {
 		ls := mkLoggers(ws, c.Sync, c.Dest)
 		done := 0
@@ -204,7 +211,10 @@ func runLog(c *Case, ch vsched.Chooser) (string, *vsched.Sched) {
 			t := t
 			vsched.GoNamed(fmt.Sprintf("logger%d", t), func() {
 				for i := 0; i < c.K; i++ {
-					shapes[shapeOf(t, i)](ls, t, i)
+					func() {
+						defer func() { recover() }() // only the destination's own panic can arrive here
+						shapes[shapeOf(t, i)](ls, t, i)
+					}()
 				}
 				done++
 			})
@@ -235,6 +245,23 @@ func runLog(c *Case, ch vsched.Chooser) (string, *vsched.Sched) {
 		want := append([]string{}, solo[k].got...)
 		sort.Strings(got)
 		sort.Strings(want)
+		if k == 0 && c.PanicAt > 0 && c.PanicAt <= len(want) && c.Dest == "" {
+			// exactly the event whose Write panicked is missing
+			if len(got) != len(want)-1 {
+				return fmt.Sprintf("the destination's Write panicked once: %d of %d events arrived, want all but one", len(got), len(want)), s
+			}
+			j := 0
+			for _, g := range got {
+				for j < len(want) && want[j] != g {
+					j++
+				}
+				if j == len(want) {
+					return fmt.Sprintf("received %.120q, which no thread emitted", g), s
+				}
+				j++
+			}
+			continue
+		}
 		if len(got) != len(want) {
 			return fmt.Sprintf("destination %d received %d writes for %d emitted events", k, len(got), len(want)), s
 		}
@@ -429,6 +456,7 @@ func TestDFS(t *testing.T) {
 	for _, w := range whats() {
 		switch w {
 		case "log":
+			cfgs = append(cfgs, cfg{Case{What: w, T: 2, K: 2, Sync: true, PanicAt: 1}, b}, cfg{Case{What: w, T: 2, K: 2, Sync: true, PanicAt: 2}, b}, cfg{Case{What: w, T: 2, K: 2, PanicAt: 2}, b})
 			cfgs = append(cfgs, cfg{Case{What: w, T: 2, K: 2, Dest: "console"}, b}, cfg{Case{What: w, T: 2, K: 2, Dest: "multi"}, b})
 			cfgs = append(cfgs, cfg{Case{What: w, T: 2, K: 1}, 3}, cfg{Case{What: w, T: 2, K: 2}, b}, cfg{Case{What: w, T: 2, K: 2, Sync: true}, b}, cfg{Case{What: w, T: 3, K: 1}, b}, cfg{Case{What: w, T: 2, K: 3}, b})
 			if ev.Thorough() {
@@ -483,6 +511,9 @@ func TestRapidSchedules(t *testing.T) {
 		c.Sync = rapid.Bool().Draw(rt, "sync")
 		if c.What == "log" {
 			c.Dest = rapid.SampledFrom([]string{"", "", "console", "multi"}).Draw(rt, "dest")
+			if c.Dest == "" && rapid.IntRange(0, 3).Draw(rt, "panics") == 0 {
+				c.PanicAt = rapid.IntRange(1, 3).Draw(rt, "panicat")
+			}
 		}
 		c.N = uint32(rapid.IntRange(0, 5).Draw(rt, "N"))
 		if rapid.Bool().Draw(rt, "pct") {
